@@ -17,7 +17,13 @@ import (
 	"golang.org/x/tools/go/packages"
 	"golang.org/x/tools/go/ssa"
 	"golang.org/x/tools/go/ssa/ssautil"
+
+	"wharfverif/checker/internal/inl"
 )
+
+// InventoryFile names the reference inventory of functions; when set, Load
+// normalises module packages against it (see package inl).
+var InventoryFile string
 
 // Mod is the module path of the code under analysis.
 const Mod = "github.com/itchio/wharf"
@@ -35,6 +41,58 @@ type Prog struct {
 	srcFns  []*ssa.Function // all functions (incl. anonymous) of module packages, sorted
 	declOf  map[*ssa.Function]ast.Node
 	NumFunc int
+
+	// Norm describes the normalisation that was applied (nil if none).
+	Norm *inl.Result
+
+	naive *ssa.Program
+}
+
+// Naive returns fn's twin in a second SSA program built in naive form (local
+// variables are not lifted to registers: every variable, captured or not, is an
+// allocation with loads and stores). Rules about the life of a variable use it
+// so that they do not depend on whether the variable happens to be captured by
+// a closure. The twin is built on demand, one package at a time.
+func (p *Prog) Naive(fn *ssa.Function) *ssa.Function {
+	if fn == nil {
+		return nil
+	}
+	if p.naive == nil {
+		p.naive, _ = ssautil.AllPackages(p.Roots, ssa.NaiveForm|ssa.InstantiateGenerics)
+	}
+	var path []int
+	top := fn
+	for top.Parent() != nil {
+		par := top.Parent()
+		idx := -1
+		for i, a := range par.AnonFuncs {
+			if a == top {
+				idx = i
+			}
+		}
+		if idx < 0 {
+			return nil
+		}
+		path = append([]int{idx}, path...)
+		top = par
+	}
+	obj, _ := top.Object().(*types.Func)
+	if obj == nil || obj.Pkg() == nil {
+		return nil
+	}
+	np := p.naive.Package(obj.Pkg())
+	if np == nil {
+		return nil
+	}
+	np.Build()
+	nf := p.naive.FuncValue(obj)
+	for _, i := range path {
+		if nf == nil || i >= len(nf.AnonFuncs) {
+			return nil
+		}
+		nf = nf.AnonFuncs[i]
+	}
+	return nf
 }
 
 // BrokenError marks a failure of the checker itself (exit 2), as opposed to a
@@ -87,6 +145,25 @@ func Load(dir string, minPkgs int, extra ...string) (*Prog, error) {
 	}
 	sort.Slice(pkgs, func(i, j int) bool { return pkgs[i].PkgPath < pkgs[j].PkgPath })
 	p.Roots = pkgs
+	if InventoryFile != "" {
+		var mod []*packages.Package
+		for _, pk := range pkgs {
+			if strings.HasPrefix(pk.PkgPath, Mod) {
+				mod = append(mod, pk)
+			}
+		}
+		if len(mod) > 0 {
+			inv, err := ReadInventory(InventoryFile)
+			if err != nil {
+				return nil, broken("inventory: %v", err)
+			}
+			res, err := inl.Normalize(fset, mod, p.All, inv)
+			if err != nil {
+				return nil, broken("normalisation: %v", err)
+			}
+			p.Norm = res
+		}
+	}
 	prog, _ := ssautil.AllPackages(pkgs, ssa.InstantiateGenerics)
 	prog.Build()
 	p.SSA = prog
@@ -233,6 +310,12 @@ func (p *Prog) Pos(pos token.Pos) string {
 	if !pos.IsValid() {
 		return "-"
 	}
+	if p.Norm != nil {
+		pos = p.Norm.OrigPos(pos)
+		if !pos.IsValid() {
+			return "-"
+		}
+	}
 	ps := p.Fset.Position(pos)
 	f := strings.TrimPrefix(ps.Filename, p.Dir+"/")
 	return fmt.Sprintf("%s:%d", f, ps.Line)
@@ -289,4 +372,44 @@ func PkgPathOf(fn *ssa.Function) string {
 		return o.Pkg().Path()
 	}
 	return ""
+}
+
+// ReadInventory reads the reference inventory of functions.
+func ReadInventory(file string) (map[string]bool, error) {
+	b, err := os.ReadFile(file)
+	if err != nil {
+		return nil, err
+	}
+	inv := map[string]bool{}
+	for _, l := range strings.Split(string(b), "\n") {
+		l = strings.TrimSpace(l)
+		if l == "" || strings.HasPrefix(l, "#") {
+			continue
+		}
+		inv[l] = true
+	}
+	if len(inv) < 100 {
+		return nil, fmt.Errorf("%s lists %d functions, expected several hundred", file, len(inv))
+	}
+	return inv, nil
+}
+
+// Inventory lists the keys of every function declaration with a body in the
+// module's packages (the format of the inventory file).
+func (p *Prog) Inventory() []string {
+	var out []string
+	for _, pk := range p.Roots {
+		if !strings.HasPrefix(pk.PkgPath, Mod) {
+			continue
+		}
+		for _, f := range pk.Syntax {
+			for _, d := range f.Decls {
+				if fd, ok := d.(*ast.FuncDecl); ok && fd.Body != nil {
+					out = append(out, inl.FuncKey(pk.PkgPath, fd))
+				}
+			}
+		}
+	}
+	sort.Strings(out)
+	return out
 }
